@@ -1394,6 +1394,10 @@ impl LsmTree {
                 #[cfg(blue_verif)]
                 self.verif_proto.released(&compaction);
                 let _ = version.version.release_compaction(compaction);
+                // NOTE:  Releasing a claimed compaction creates work.  A thread whose only
+                // candidates conflicted with it sleeps on `compact`, and this thread is about to
+                // return, so nobody else would ever wake it.
+                self.compact.notify_all();
                 return Err(err);
             }
         }
